@@ -119,6 +119,26 @@ def retarget(curve):
         assert em.point_scalar_mul.__defaults__ == (0, 7)
 
 
+def _rebind_by_value_imports(mapping):
+    """`from secrets import randbelow` in the code under test copies the function object into the module: rebind such copies
+    too (every attribute of a loaded bits module that IS one of the original functions).  Returns undo()."""
+    import sys
+    saved = []
+    for name, mod in list(sys.modules.items()):
+        if mod is None or not (name == "bits" or name.startswith("bits.")):
+            continue
+        for k, v in list(vars(mod).items()):
+            for orig, new in mapping:
+                if v is orig:
+                    saved.append((mod, k, v))
+                    setattr(mod, k, new)
+
+    def undo():
+        for mod, k, v in saved:
+            setattr(mod, k, v)
+    return undo
+
+
 @contextlib.contextmanager
 def scripted_rng(draws, token=None):
     """secrets.randbelow returns the scripted draws (clipped to the requested bound, as a real
@@ -145,9 +165,11 @@ def scripted_rng(draws, token=None):
 
     o1, o2 = secrets.randbelow, secrets.token_bytes
     secrets.randbelow, secrets.token_bytes = randbelow, token_bytes
+    undo = _rebind_by_value_imports([(o1, randbelow), (o2, token_bytes)])
     try:
         yield used
     finally:
+        undo()
         secrets.randbelow, secrets.token_bytes = o1, o2
 
 
@@ -324,9 +346,11 @@ def det_rng(seed, forced=()):
 
     o1, o2 = secrets.randbelow, secrets.token_bytes
     secrets.randbelow, secrets.token_bytes = randbelow, token_bytes
+    undo = _rebind_by_value_imports([(o1, randbelow), (o2, token_bytes)])
     try:
         yield
     finally:
+        undo()
         secrets.randbelow, secrets.token_bytes = o1, o2
 
 
